@@ -346,8 +346,14 @@ def validate_before_clear(ctx, P, rule="VALIDATE-BEFORE-CLEAR", table=CLEARERS):
         errs = [m for m in re.finditer(codes, src)]
         late = [m for m in errs if pos != -1 and m.start() > pos]
         gate = src.find("tsk_table_collection_check_integrity(")
-        missing = [c for c in required if pos == -1 or c not in src[:pos]]
-        ok = pos != -1 and errs and not late and not missing and (gate == -1 or gate < pos)
+        before = src[:pos] if pos != -1 else ""
+        # a validation moved into a helper of the same translation unit that is called before the clearer counts (one level)
+        for hn in set(re.findall(r"\b([a-z]\w+)\s*\(", before)):
+            hf = P.func(hn, tn)
+            if hf is not None and hf.body is not None and hn != fname and not hn.startswith("tsk_trace"):
+                before += "\n" + tu.src(hf.body)
+        missing = [c for c in required if pos == -1 or c not in before]
+        ok = pos != -1 and not late and not missing and (gate == -1 or gate < pos)
         ctx.ob(rule, "%s|%s" % (fname, clearer), bool(ok), tu.loc(fn.node),
                "%d argument errors (%s) and the integrity check all precede %s" % (len(errs), ", ".join(c[8:] for c in required), clearer) if ok else
                ("%s is raised after %s has emptied the caller's tables: a rejected call destroys its input" % (late[0].group(0), clearer) if late else
@@ -488,7 +494,8 @@ def tree_reset_unconditional(ctx, P, rule="TREE-RESET-UNCONDITIONAL"):
     for fname, step in (("tsk_tree_first", "tsk_tree_next"), ("tsk_tree_last", "tsk_tree_prev")):
         fn = P.need(fname, "trees")
         top = [k for k in fn.body.kids if k is not None]
-        pos_clear = [i for i, st in enumerate(top) if st.k not in ("IfStmt", "ForStmt", "WhileStmt", "DoStmt", "SwitchStmt") and calls(st, "tsk_tree_clear")]
+        pos_clear = [i for i, st in enumerate(top) if (st.k not in ("IfStmt", "ForStmt", "WhileStmt", "DoStmt", "SwitchStmt") and calls(st, "tsk_tree_clear"))
+                     or (st.k == "IfStmt" and st.kids and calls(st.kids[0], "tsk_tree_clear"))]
         pos_step = [i for i, st in enumerate(top) if calls(st, step)]
         cond = [st for st in top if st.k in ("IfStmt", "ForStmt", "WhileStmt", "DoStmt", "SwitchStmt") and any(
             calls(k, "tsk_tree_clear") for k in st.kids[1:] if k is not None)]
